@@ -511,6 +511,27 @@ def M5(ctx):
                     site_str(prog, fk, (other or cmps or [(0, None)])[0][0]))
 
 
+def M5b(ctx):
+    """An RMW may read *every* store that is maximal in modification order (racing stores are unordered, each can be the one the
+    RMW follows): the number of candidates is counted per store, not fixed."""
+    prog = ctx.prog
+    fk = ST + "match_rmw_to_stores"
+    fn = need_fn(ctx, "M5b", fk)
+    if fn is None:
+        return
+    body = fn.body
+    srcs = deep_sources(body, body.expr_of_local(0))
+    counted = any(x[0] == "binop" and x[1] in ("Add", "AddWithOverflow") for x in srcs) or \
+        any(x[0] == "field" and strip(x[1])[0] == "binop" and strip(x[1])[1] in ("Add", "AddWithOverflow") for x in srcs)
+    consts = sorted({x[1].get("int") for x in srcs if x[0] == "const" and "int" in x[1]})
+    nexts = [b for (b, t, c) in prog.sites(prog.ident(fk)) if callee_path(t) == "std::iter::Iterator::next"]
+    if counted and len(nexts) >= 2:
+        ctx.ok("M5b", fk, "one candidate per store without a modification-order-later store (count accumulated in the loop)", [fn.loc()])
+    else:
+        ctx.bad("M5b", fk, "match_rmw_to_stores no longer offers every maximal store (returned count from %s, %d loop(s)): with racing "
+                "stores an RMW can only follow one of them and outcomes are lost" % (consts or "?", len(nexts)), fn.loc(), detail="single-candidate")
+
+
 def M6(ctx):
     """Closed list of pruning reasons in match_load_to_stores: a candidate store i is dropped because of a modification-order-later
     store j only if (a) j has been seen by the current causality, (b) i was seen before the thread's last yield, or (c) the load and
@@ -877,7 +898,27 @@ def N3(ctx):
             cas_args_ok = "prev" in a[0] and ("Some" in a[1] or "next" in a[1])
             in_loop = any(cas[0][0] in body.reachable(s) for s in body.succs(cas[0][0]))
             cas_args_ok = cas_args_ok and in_loop
-        if len(loads) == 1 and len(cas) == 1 and okret and errret and cas_args_ok:
+        # Err(prev) is returned exactly when the user function itself yields None: the guard of the Err return (and of the CAS) is
+        # the discriminant of the *call result* of f, not of something derived from it (a filtered / compared value)
+        direct = True
+        for b, blk in enumerate(body.blocks):
+            if blk["cleanup"]:
+                continue
+            is_err = any(s_["k"] == "=" and s_["lhs"]["l"] == 0 and s_["rv"]["k"] == "agg" and s_["rv"].get("variant") == "Err" for s_ in blk["stmts"])
+            is_cas = body.term(b)["k"] == "call" and callee_path(body.term(b)) == L1 + "compare_exchange"
+            if not (is_err or is_cas):
+                continue
+            ds = [(ge, v) for (ge, pol, v, sb) in guard_atoms(body, b) if ge[0] == "discr" and ge[2] == "std::option::Option"]
+            if not ds or not all(strip(ge[1])[0] == "call" and strip(ge[1])[1].startswith("std::ops::Fn") for (ge, v) in ds):
+                direct = False
+            others = [canon(ge)[:60] for (ge, pol, v, sb) in guard_atoms(body, b) if ge[0] != "discr" and sb is not None and
+                      not (ge[0] == "call" and "compare_exchange" in ge[1])]
+            if others:
+                direct = False
+        if len(loads) == 1 and len(cas) == 1 and okret and errret and cas_args_ok and not direct:
+            ctx.bad("N3", fk, "fetch_update decides between the CAS and `Err(prev)` by something other than whether the user function "
+                    "returned Some/None (std: `Some(v)` is always attempted, also when v equals the current value)", fn.loc(), detail="none-only")
+        elif len(loads) == 1 and len(cas) == 1 and okret and errret and cas_args_ok:
             ctx.ok("N3", fk, "load; loop { f(prev) -> CAS(prev, next) }; Ok(prev) on success, Err(prev) when f yields None", [fn.loc()])
         else:
             ctx.bad("N3", fk, "fetch_update lost its shape (loads=%d cas=%d Ok=%s Err=%s args=%s)" % (len(loads), len(cas), okret, errret, cas_args_ok), fn.loc())
